@@ -321,5 +321,6 @@ def cli_roles(R, prog, P, members, floor):
     pat = re.compile(r": (%s)\(" % "|".join(sorted(names)))
     borrow(R, P, "CLI", prog, c17.check_arg_role, helpers, floor=floor, only=lambda t: bool(pat.search(t)))
     hn = tuple(h[0].name for h in mine)
+    borrow(R, P, "CLI", prog, c17.check_helper_schema, helpers, floor=1, only=lambda t: t.startswith(hn))
     borrow(R, P, "CLI", prog, c17.check_optional_object, helpers, floor=0, only=lambda t: t.startswith(hn))
     borrow(R, P, "CLI", prog, c17.check_action_defaults, helpers, floor=0, only=lambda t: t.startswith(hn))
